@@ -20,10 +20,11 @@ type ModSet struct {
 	Fresh         map[string]string
 	Locals        map[*ssa.Alloc]bool // stores to locals (incl. via captured free vars), for loop havoc
 	FreeVarStores map[*ssa.FreeVar]bool
+	ByParam       map[int]map[string]string // writes into memory rooted directly at parameter i
 }
 
 func newModSet() *ModSet {
-	return &ModSet{Arrays: map[string]string{}, Fresh: map[string]string{}, Locals: map[*ssa.Alloc]bool{}, FreeVarStores: map[*ssa.FreeVar]bool{}}
+	return &ModSet{Arrays: map[string]string{}, Fresh: map[string]string{}, ByParam: map[int]map[string]string{}, Locals: map[*ssa.Alloc]bool{}, FreeVarStores: map[*ssa.FreeVar]bool{}}
 }
 
 func (m *ModSet) union(o *ModSet, freshToo bool) bool {
@@ -58,6 +59,7 @@ type ModAnalysis struct {
 	cfgs             map[*ssa.Function]*cfgInfo
 	declaredFinal    map[string][]string // field array -> allowed writer functions (from `final` clauses)
 	nonFinalWriters  map[string]map[string]bool
+	retFresh         map[*ssa.Function][]bool
 	FinalAssumptions []string
 	pureCache        map[*ssa.Function]*pureInfo
 	pureIfaceCache   map[string]int
@@ -91,7 +93,23 @@ func (ma *ModAnalysis) Of(fn *ssa.Function) *ModSet {
 func (ma *ModAnalysis) IsFinal(g *ssa.Global) bool { return ma.final[g] }
 
 func (ma *ModAnalysis) run() {
-	fns := ma.w.AllFuncs
+	fns := append([]*ssa.Function{}, ma.w.AllFuncs...)
+	// synthetic method wrappers (promoted methods of embedded fields) take part in the effect analysis
+	have := map[*ssa.Function]bool{}
+	for _, f := range fns {
+		have[f] = true
+	}
+	for _, n := range ma.w.Named {
+		for _, t := range []types.Type{n, types.NewPointer(n)} {
+			mset := ma.w.Prog.MethodSets.MethodSet(t)
+			for i := 0; i < mset.Len(); i++ {
+				if mfn := ma.w.Prog.MethodValue(mset.At(i)); mfn != nil && !have[mfn] && len(mfn.Blocks) > 0 {
+					have[mfn] = true
+					fns = append(fns, mfn)
+				}
+			}
+		}
+	}
 	// final globals
 	mutable := map[*ssa.Global]bool{}
 	for _, fn := range fns {
@@ -149,6 +167,39 @@ func (ma *ModAnalysis) run() {
 			}
 		}
 	}
+	// optimistic "returns a fresh object" summaries, refined downwards
+	ma.retFresh = map[*ssa.Function][]bool{}
+	for _, fn := range fns {
+		res := fn.Signature.Results()
+		rf := make([]bool, res.Len())
+		for i := range rf {
+			t := res.At(i).Type()
+			_, isSl := t.Underlying().(*types.Slice)
+			rf[i] = (isRefLike(t) || isSl) && len(fn.Blocks) > 0
+		}
+		ma.retFresh[fn] = rf
+	}
+	for iter := 0; iter < 50; iter++ {
+		changed := false
+		for _, fn := range fns {
+			rf := ma.retFresh[fn]
+			for _, b := range fn.Blocks {
+				ret, ok := b.Instrs[len(b.Instrs)-1].(*ssa.Return)
+				if !ok {
+					continue
+				}
+				for i, r := range ret.Results {
+					if i < len(rf) && rf[i] && ma.origin(r, 0) != orFresh {
+						rf[i] = false
+						changed = true
+					}
+				}
+			}
+		}
+		if !changed {
+			break
+		}
+	}
 	// direct effects + propagate to fixpoint
 	for iter := 0; iter < 50; iter++ {
 		changed := false
@@ -179,16 +230,25 @@ func (ma *ModAnalysis) step(fn *ssa.Function) bool {
 // InstrMods adds the effects of one instruction to ms; reports change.
 func (ma *ModAnalysis) instrMods(fn *ssa.Function, ins ssa.Instruction, ms *ModSet) bool {
 	ch := false
-	add := func(name, sort string, fresh bool) {
+	add := func(name, sort string, org int) {
 		if ma.IsFinalField(name) {
 			return
 		}
-		if fresh {
+		switch {
+		case org == orFresh:
 			if _, ok := ms.Fresh[name]; !ok {
 				ms.Fresh[name] = sort
 				ch = true
 			}
-		} else {
+		case org >= 0:
+			if ms.ByParam[org] == nil {
+				ms.ByParam[org] = map[string]string{}
+			}
+			if _, ok := ms.ByParam[org][name]; !ok {
+				ms.ByParam[org][name] = sort
+				ch = true
+			}
+		default:
 			if _, ok := ms.Arrays[name]; !ok {
 				ms.Arrays[name] = sort
 				ch = true
@@ -200,7 +260,7 @@ func (ma *ModAnalysis) instrMods(fn *ssa.Function, ins ssa.Instruction, ms *ModS
 		ma.addrMods(x.Addr, add, ms)
 	case *ssa.MapUpdate:
 		mt := x.Map.Type().Underlying().(*types.Map)
-		ma.mapMods(mt, isFreshRoot(x.Map, 0), add)
+		ma.mapMods(mt, ma.origin(x.Map, 0), add)
 	case *ssa.Go, *ssa.Send, *ssa.Select:
 		if !ms.Top {
 			ms.Top = true
@@ -219,14 +279,14 @@ func (ma *ModAnalysis) instrMods(fn *ssa.Function, ins ssa.Instruction, ms *ModS
 	return ch
 }
 
-func (ma *ModAnalysis) mapMods(mt *types.Map, fresh bool, add func(string, string, bool)) {
+func (ma *ModAnalysis) mapMods(mt *types.Map, fresh int, add func(string, string, int)) {
 	ks, es := ma.sorts.Of(mt.Key()), ma.sorts.Of(mt.Elem())
 	add(ma.sorts.MapHas(ks, es), "(Array Int (Array "+ks+" Bool))", fresh)
 	add(ma.sorts.MapVal(ks, es), "(Array Int (Array "+ks+" "+es+"))", fresh)
 	add(MapLen, "Int", fresh)
 }
 
-func (ma *ModAnalysis) addrMods(addr ssa.Value, add func(string, string, bool), ms *ModSet) {
+func (ma *ModAnalysis) addrMods(addr ssa.Value, add func(string, string, int), ms *ModSet) {
 	// walk down to the root
 	v := addr
 	var firstField *ssa.FieldAddr // the FieldAddr applied directly to the root pointer
@@ -240,7 +300,7 @@ func (ma *ModAnalysis) addrMods(addr ssa.Value, add func(string, string, bool), 
 			switch bt := x.X.Type().Underlying().(type) {
 			case *types.Slice:
 				es := ma.sorts.Of(bt.Elem())
-				add(ma.sorts.ElemArray(es), es, isFreshRoot(x.X, 0))
+				add(ma.sorts.ElemArray(es), es, ma.origin(x.X, 0))
 				return
 			case *types.Pointer:
 				// pointer to array: the array lives in E_<elem>
@@ -250,7 +310,7 @@ func (ma *ModAnalysis) addrMods(addr ssa.Value, add func(string, string, bool), 
 						return
 					}
 					es := ma.sorts.Of(at.Elem())
-					add(ma.sorts.ElemArray(es), es, isFreshRoot(x.X, 0))
+					add(ma.sorts.ElemArray(es), es, ma.origin(x.X, 0))
 					return
 				}
 			}
@@ -261,7 +321,7 @@ func (ma *ModAnalysis) addrMods(addr ssa.Value, add func(string, string, bool), 
 		break
 	}
 	root := v
-	fresh := isFreshRoot(root, 0)
+	fresh := ma.origin(root, 0)
 	if a, ok := root.(*ssa.Alloc); ok {
 		ms.Locals[a] = true
 	}
@@ -294,6 +354,137 @@ func (ma *ModAnalysis) addrMods(addr ssa.Value, add func(string, string, bool), 
 	}
 	cs := ma.sorts.Of(elem)
 	add(ma.sorts.CellArray(cs), cs, fresh)
+}
+
+// origin of a pointer/slice/map value: orFresh (allocated in this activation), orParam+i (the i-th
+// parameter itself or a reslice/append of it), orOther.
+const (
+	orFresh = -1
+	orOther = -2
+)
+
+func (ma *ModAnalysis) origin(v ssa.Value, depth int) int {
+	return ma.originSeen(v, depth, map[ssa.Value]bool{})
+}
+
+func (ma *ModAnalysis) originSeen(v ssa.Value, depth int, seen map[ssa.Value]bool) int {
+	if depth > 24 {
+		return orOther
+	}
+	switch x := v.(type) {
+	case *ssa.Alloc, *ssa.MakeSlice, *ssa.MakeMap:
+		return orFresh
+	case *ssa.Const:
+		if x.Value == nil {
+			return orFresh
+		}
+		return orOther
+	case *ssa.Parameter:
+		for i, p := range x.Parent().Params {
+			if p == x {
+				return i
+			}
+		}
+		return orOther
+	case *ssa.Slice:
+		return ma.originSeen(x.X, depth+1, seen)
+	case *ssa.ChangeType:
+		return ma.originSeen(x.X, depth+1, seen)
+	case *ssa.MakeInterface:
+		if isRefLike(x.X.Type()) {
+			return ma.originSeen(x.X, depth+1, seen)
+		}
+		return orFresh
+	case *ssa.ChangeInterface:
+		return ma.originSeen(x.X, depth+1, seen)
+	case *ssa.Phi:
+		if seen[x] {
+			return orFresh // cycle through a loop phi: neutral
+		}
+		seen[x] = true
+		res := orFresh
+		for _, e := range x.Edges {
+			if e == v {
+				continue
+			}
+			o := ma.originSeen(e, depth+1, seen)
+			switch {
+			case o == orOther:
+				return orOther
+			case o == orFresh:
+			case res == orFresh:
+				res = o
+			case res != o:
+				return orOther
+			}
+		}
+		return res
+	case *ssa.Extract:
+		if call, ok := x.Tuple.(*ssa.Call); ok {
+			return ma.callResultOrigin(call, x.Index)
+		}
+	case *ssa.UnOp:
+		// load of a local variable cell: join of everything stored into it
+		if a, ok := x.X.(*ssa.Alloc); ok && x.Op == token.MUL {
+			if seen[a] {
+				return orFresh
+			}
+			seen[a] = true
+			refs := a.Referrers()
+			if refs == nil {
+				return orOther
+			}
+			res := orFresh
+			for _, r := range *refs {
+				switch y := r.(type) {
+				case *ssa.DebugRef, *ssa.UnOp:
+				case *ssa.Store:
+					if y.Val == ssa.Value(a) {
+						return orOther
+					}
+					o := ma.originSeen(y.Val, depth+1, seen)
+					switch {
+					case o == orOther:
+						return orOther
+					case o == orFresh:
+					case res == orFresh:
+						res = o
+					case res != o:
+						return orOther
+					}
+				case *ssa.MakeClosure:
+					fn := y.Fn.(*ssa.Function)
+					for i, b := range y.Bindings {
+						if b == ssa.Value(a) && i < len(fn.FreeVars) {
+							if cs, ok := ma.sets[fn]; ok && cs.FreeVarStores[fn.FreeVars[i]] {
+								return orOther
+							}
+						}
+					}
+				default:
+					return orOther
+				}
+			}
+			return res
+		}
+	case *ssa.Call:
+		if b, ok := x.Call.Value.(*ssa.Builtin); ok && b.Name() == "append" {
+			return ma.originSeen(x.Call.Args[0], depth+1, seen)
+		}
+		return ma.callResultOrigin(x, 0)
+	}
+	return orOther
+}
+
+func (ma *ModAnalysis) callResultOrigin(call *ssa.Call, idx int) int {
+	callee := call.Call.StaticCallee()
+	if callee == nil || call.Call.IsInvoke() {
+		return orOther
+	}
+	if rf, ok := ma.retFresh[callee]; ok && idx < len(rf) && rf[idx] {
+		return orFresh
+	}
+	return orOther
 }
 
 func isFreshRoot(v ssa.Value, depth int) bool {
@@ -334,7 +525,7 @@ var externalWrites = map[string][]int{
 	"sort.Strings": {0}, "sort.Ints": {0}, "sort.Slice": {0}, "sort.SliceStable": {0}, "sort.Sort": {0},
 }
 
-func (ma *ModAnalysis) callMods(fn *ssa.Function, cc *ssa.CallCommon, ms *ModSet, add func(string, string, bool)) bool {
+func (ma *ModAnalysis) callMods(fn *ssa.Function, cc *ssa.CallCommon, ms *ModSet, add func(string, string, int)) bool {
 	ch := false
 	if cc.IsInvoke() {
 		it := cc.Value.Type()
@@ -343,7 +534,7 @@ func (ma *ModAnalysis) callMods(fn *ssa.Function, cc *ssa.CallCommon, ms *ModSet
 			if cc.Method.Name() == "Read" && len(cc.Args) == 1 {
 				if sl, ok := cc.Args[0].Type().Underlying().(*types.Slice); ok {
 					es := ma.sorts.Of(sl.Elem())
-					add(ma.sorts.ElemArray(es), es, isFreshRoot(cc.Args[0], 0))
+					add(ma.sorts.ElemArray(es), es, ma.origin(cc.Args[0], 0))
 				}
 			}
 			return false
@@ -358,6 +549,17 @@ func (ma *ModAnalysis) callMods(fn *ssa.Function, cc *ssa.CallCommon, ms *ModSet
 				if cs, ok := ma.sets[mfn]; ok {
 					if ms.union(cs, true) {
 						ch = true
+					}
+					for pi, arrs := range cs.ByParam {
+						org := orOther
+						if pi == 0 {
+							org = ma.origin(cc.Value, 0)
+						} else if pi-1 < len(cc.Args) {
+							org = ma.origin(cc.Args[pi-1], 0)
+						}
+						for n, srt := range arrs {
+							add(n, srt, org)
+						}
 					}
 				} else if mfn.Synthetic != "" {
 					// wrapper: look through to the wrapped method by name
@@ -381,15 +583,15 @@ func (ma *ModAnalysis) callMods(fn *ssa.Function, cc *ssa.CallCommon, ms *ModSet
 		case "append":
 			if sl, ok := cc.Args[0].Type().Underlying().(*types.Slice); ok {
 				es := ma.sorts.Of(sl.Elem())
-				add(ma.sorts.ElemArray(es), es, isFreshRoot(cc.Args[0], 0))
+				add(ma.sorts.ElemArray(es), es, ma.origin(cc.Args[0], 0))
 			}
 		case "copy":
 			if sl, ok := cc.Args[0].Type().Underlying().(*types.Slice); ok {
 				es := ma.sorts.Of(sl.Elem())
-				add(ma.sorts.ElemArray(es), es, isFreshRoot(cc.Args[0], 0))
+				add(ma.sorts.ElemArray(es), es, ma.origin(cc.Args[0], 0))
 			}
 		case "delete":
-			ma.mapMods(cc.Args[0].Type().Underlying().(*types.Map), isFreshRoot(cc.Args[0], 0), add)
+			ma.mapMods(cc.Args[0].Type().Underlying().(*types.Map), ma.origin(cc.Args[0], 0), add)
 		}
 		return false
 	}
@@ -401,9 +603,36 @@ func (ma *ModAnalysis) callMods(fn *ssa.Function, cc *ssa.CallCommon, ms *ModSet
 		}
 		return false
 	}
+	if ma.sp != nil {
+		if con := ma.sp.Contracts[ma.w.keyOfAny(callee)]; con != nil && con.HasAssigns && len(con.Assigns) == 0 {
+			if cs, ok := ma.sets[callee]; ok {
+				for n, srt := range cs.Arrays {
+					add(n, srt, orFresh)
+				}
+				for n, srt := range cs.Fresh {
+					add(n, srt, orFresh)
+				}
+				for _, arrs := range cs.ByParam {
+					for n, srt := range arrs {
+						add(n, srt, orFresh)
+					}
+				}
+			}
+			return ch
+		}
+	}
 	if cs, ok := ma.sets[callee]; ok {
 		if ms.union(cs, true) {
 			ch = true
+		}
+		for pi, arrs := range cs.ByParam {
+			org := orOther
+			if pi < len(cc.Args) {
+				org = ma.origin(cc.Args[pi], 0)
+			}
+			for n, srt := range arrs {
+				add(n, srt, org)
+			}
 		}
 		// a closure's stores through free variables hit the caller's locals
 		if mc, ok := cc.Value.(*ssa.MakeClosure); ok {
@@ -433,7 +662,7 @@ func (ma *ModAnalysis) callMods(fn *ssa.Function, cc *ssa.CallCommon, ms *ModSet
 			if i < len(cc.Args) {
 				if sl, ok := cc.Args[i].Type().Underlying().(*types.Slice); ok {
 					es := ma.sorts.Of(sl.Elem())
-					add(ma.sorts.ElemArray(es), es, isFreshRoot(cc.Args[i], 0))
+					add(ma.sorts.ElemArray(es), es, ma.origin(cc.Args[i], 0))
 				}
 			}
 		}
@@ -658,4 +887,40 @@ func instrReaches(ci *cfgInfo, a, b ssa.Instruction) bool {
 		push(n)
 	}
 	return false
+}
+
+// AtCall: the effects of calling callee with the given argument operands: parameter-rooted writes are
+// attributed according to where the arguments come from in the caller.
+func (ma *ModAnalysis) AtCall(callee *ssa.Function, args []ssa.Value) *ModSet {
+	cs, ok := ma.sets[callee]
+	if !ok {
+		return &ModSet{Top: true}
+	}
+	if len(cs.ByParam) == 0 {
+		return cs
+	}
+	ms := newModSet()
+	ms.union(cs, true)
+	for pi, arrs := range cs.ByParam {
+		org := orOther
+		if pi < len(args) && args[pi] != nil {
+			org = ma.origin(args[pi], 0)
+		}
+		for n, srt := range arrs {
+			if org == orFresh {
+				if _, ok := ms.Fresh[n]; !ok {
+					ms.Fresh[n] = srt
+				}
+			} else {
+				ms.Arrays[n] = srt
+			}
+		}
+	}
+	return ms
+}
+
+// RetFresh reports whether result i of fn is always a freshly allocated object.
+func (ma *ModAnalysis) RetFresh(fn *ssa.Function, i int) bool {
+	rf := ma.retFresh[fn]
+	return i < len(rf) && rf[i]
 }
